@@ -65,6 +65,9 @@ REQUESTS = [
     ("partial-argument-coercion", {"query": "query ($q: Int = 1) { r(q: $q) a }", "variables": {"q": None}, "custom": {"Query.r": "sync", "Query.a": "async"}}, ["query", "parsing", "validation", "execution"]),
     ("partial-null-values", {"query": "{ a o { x } b l { x } }", "custom": {"Query.a": "async", "Query.o": "sync", "Query.b": "sync", "Obj.x": "async"}, "overrides": {"a": "null", "o": "null", "l.0.x": "null"}}, ["query", "parsing", "validation", "execution"]),
     ("partial-error-subclass", {"query": "{ a b }", "custom": {"Query.a": "async", "Query.b": "sync"}, "overrides": {"a": "err-sub", "b": "err-sub"}}, ["query", "parsing", "validation", "execution"]),
+    ("success-schema-default-resolver", {"query": "{ a o { x y } l { x } }", "custom": {"Query.a": "async"}, "sdl": "full+schema-default"}, ["query", "parsing", "validation", "execution"]),
+    ("success-type-default-resolver", {"query": "{ o { x y o { x } } b }", "custom": {"Query.b": "sync"}, "sdl": "full+type-default"}, ["query", "parsing", "validation", "execution"]),
+    ("partial-schema-default-resolver", {"query": "{ a b o { x } }", "custom": {}, "sdl": "full+schema-default", "overrides": {"b": "err", "o.x": "err"}}, ["query", "parsing", "validation", "execution"]),
     ("mutation-list", {"query": "mutation { m4 { x } m3 }", "custom": {"Mutation.m4": "async", "Obj.x": "async", "Mutation.m3": "sync"}}, ["query", "parsing", "validation", "execution"]),
     ("mutation", {"query": "mutation { m3 m1 { x } }", "custom": {"Mutation.m3": "async", "Mutation.m1": "sync", "Obj.x": "async"}}, ["query", "parsing", "validation", "execution"]),
     ("mutation-partial", {"query": "mutation { m3 m5 }", "custom": {"Mutation.m3": "async", "Mutation.m5": "async"}, "overrides": {"m3": "err"}}, ["query", "parsing", "validation", "execution"]),
@@ -283,7 +286,7 @@ def check_case(case, st):
     # all completion orders are free while few results are in flight; beyond that an out-of-order completion
     # costs one deviation like an early one
     free = ndef <= b["free_order_upto"]
-    for cfg in H.CONFIGS:
+    for cfg in H.CONFIGS + ("entry-blocking", "entry-graphql"):
         bad = 0
         for choices, obs, world in S.schedules(cfg, scn, st, free=free, bound=b["early_bound"], max_execs=(4000 if st.tier == "quick" else 30000), fast=False):
             st.n("evaluations")
